@@ -85,10 +85,22 @@ impl SimCase {
     }
     pub fn trace_string(&self) -> String {
         let mut s = String::new();
-        for (t, sent) in &self.trace {
-            s += &format!("{t},{}", if *sent { "s" } else { "r" });
+        for (i, (t, sent)) in self.trace.iter().enumerate() {
             if self.third_field {
-                s += ",1420";
+                // the other accepted spellings: "sn"/"rn", padded timestamps, a size
+                // column, lines without a direction (skipped by the parser)
+                if i % 5 == 4 {
+                    s.push('\n');
+                }
+                let dir = match (*sent, i % 2 == 1) {
+                    (true, false) => "s",
+                    (true, true) => "sn",
+                    (false, false) => "r",
+                    (false, true) => "rn",
+                };
+                s += &format!("{}{t},{dir},1420", if i % 3 == 0 { " " } else { "" });
+            } else {
+                s += &format!("{t},{}", if *sent { "s" } else { "r" });
             }
             s.push('\n');
         }
